@@ -59,16 +59,16 @@ Clash(raw, i) ==
     [] OTHER -> FALSE
 
 (* ---------------- the validated family ---------------- *)
-Rust(k) == CASE k = "maxCount" -> "max_count" [] k = "subItem" -> "sub_item" [] OTHER -> k
+Rust(k) == CASE k = "maxCount" -> "max_count" [] k = "subItem" -> "sub_item" [] k = "NEST" -> "nest" [] k = "n-est2" -> "ne_st2" [] OTHER -> k
 BadName(v) == Len(v) < 2
 BadCount(v) == v \notin {"1", "2", "3", "4", "5", "6", "7", "8", "9"}
 BadTag(v) == Len(v) < 1
 IsKey(s, n) == s.k = "key" /\ s.n = n
-InnerAt(p) == \/ Len(p) = 1 /\ (IsKey(p[1], "first") \/ IsKey(p[1], "subItem"))
+InnerAt(p) == \/ Len(p) = 1 /\ (IsKey(p[1], "first") \/ IsKey(p[1], "subItem") \/ IsKey(p[1], "NEST") \/ IsKey(p[1], "n-est2"))
               \/ Len(p) = 2 /\ IsKey(p[1], "items") /\ p[2].k = "idx"
               \/ Len(p) = 2 /\ IsKey(p[1], "extras") /\ p[2].k = "key"       \* the map-typed field of the extended family
 Violated(p, v) ==
-  \/ Len(p) = 1 /\ (IsKey(p[1], "tag") \/ IsKey(p[1], "TAG2") \/ IsKey(p[1], "a-bc")) /\ BadTag(v)   \* (TAG2, a-bc: the extended family)
+  \/ Len(p) = 1 /\ (IsKey(p[1], "tag") \/ IsKey(p[1], "TAG2") \/ IsKey(p[1], "a-bc") \/ IsKey(p[1], "xyZ") \/ IsKey(p[1], "xYz")) /\ BadTag(v)   \* (TAG2, a-bc, xyZ, xYz: the extended family)
   \/ Len(p) >= 2 /\ InnerAt(SubSeq(p, 1, Len(p) - 1))
      /\ ((IsKey(p[Len(p)], "name") /\ BadName(v)) \/ (IsKey(p[Len(p)], "maxCount") /\ BadCount(v)))
 RECURSIVE Display(_, _)
